@@ -1,4 +1,6 @@
 import AmrK.Names
+import AmrK.CellHRewriteProofs
+import AmrK.HeaderRewriteProofs
 import AmrK.WritersSizes
 /-! # C06 — combine merges fields box by box, independent of either input's file layout -/
 namespace C06
@@ -36,5 +38,53 @@ theorem field_names_distinct (n1 n2 : List String) (v1 v2 : Option (List String)
 
 /-- non-vacuity: a shared name left out of the first selection is taken from the second input -/
 example : Names.combine ["a", "b", "c"] ["b", "d"] (some ["c", "x", "a"]) none = ["c", "a", "b", "d"] := by decide
+
+/-- **the output header**: for a good input header read under the limit `l`, the header combine writes (the executable
+    writer model `Header.rewriteOf`, compared byte for byte with every written `Header`) has levels `0 … l` and is read
+    back as: the new field table, and the input's time, domain bounds and - cut after level `l` - cell sizes, grid sizes,
+    step numbers, box counts and physical boxes (float tokens already in Python's shortest form) -/
+theorem output_header_keeps_mesh (Hin : Header.HData) (hin : Hin.Good) (l : Nat) (hl : l < Hin.levels.length)
+    (coord : Py.Bytes) (names : List Py.Bytes) :
+    let Hout := Header.rewriteOf id false (Hin.meta (l + 1)) coord names
+    let M := Hout.meta (l + 1)
+    Hout.levels.length = l + 1 ∧
+    M.fields = Header.tableOf names ∧ M.maxLevel = (l : Int) ∧ M.limitLevel = (l : Int) ∧ M.ndims = Hin.ndims ∧
+    M.time = Hin.time ∧ M.geoLo = Hin.geoLo ∧ M.geoHi = Hin.geoHi ∧
+    M.dx = Hin.dx.take (l + 1) ∧ M.gridSizes = (Hin.gridHi.take (l + 1)).map (·.map (· + 1)) ∧
+    M.steps = Hin.steps.take (l + 1) ∧
+    M.boxes = (Hin.levels.take (l + 1)).map (·.boxes) ∧
+    M.npoints = (Hin.levels.take (l + 1)).map (fun L => (L.boxes.length : Int)) :=
+  Header.rewrite_keeps_mesh Hin hin l hl false coord names
+
+/-- … and that written header is read back as its content whenever it passes the executable check `goodB`
+    (evaluated by the driver on every written header; any float formatting `fl`) -/
+theorem output_header_read_back (fl : Py.Bytes → Py.Bytes) (m : Header.Meta) (coord : Py.Bytes) (names : List Py.Bytes)
+    (hg : (Header.rewriteOf fl false m coord names).goodB = true) :
+    Header.parse (Header.render (Header.rewriteOf fl false m coord names)) none =
+      .ok ((Header.rewriteOf fl false m coord names).meta (Header.rewriteOf fl false m coord names).levels.length) :=
+  Header.rewrite_read_back fl false m coord names hg
+
+/-- **min/max rows assembled from the same sources** (`rewrite_level_header`, the executable line rewriter
+    `CellHRewrite.combineLines`, compared byte for byte with every `Cell_H` combine writes): in each table of the output
+    level header the row of a box is the picked columns of the first input's row for that box followed by the picked columns
+    of the second input's row for that box - any number of boxes, fields and picked columns, in any order -/
+theorem level_header_rows_assembled (nf : Nat) (k1 k2 : List Nat) (nf1 nf2 : Nat) (rows : List (List Py.Bytes × List Py.Bytes))
+    (blank b2 c2 : Py.Bytes)
+    (hr : ∀ r ∈ rows, (r.1.length = nf1 ∧ ∀ v ∈ r.1, Py.NoByte 44 v) ∧ (r.2.length = nf2 ∧ ∀ v ∈ r.2, Py.NoByte 44 v))
+    (hk1 : ∀ k ∈ k1, k < nf1) (hk2 : ∀ k ∈ k2, k < nf2) (rest1 rest2 : List Py.Bytes) :
+    CellHRewrite.combineTable nf k1 k2
+        (blank :: CellHRewrite.cntLine rows.length nf1 :: (rows.map (fun r => CellHRewrite.rowText r.1) ++ rest1))
+        (b2 :: c2 :: (rows.map (fun r => CellHRewrite.rowText r.2) ++ rest2)) =
+      some (blank :: CellHRewrite.cntLine rows.length nf ::
+          rows.map (fun r => CellHRewrite.rowText2 (k1.map (r.1.getD · []) ++ k2.map (r.2.getD · []))), rest1, rest2) :=
+  CellHRewrite.combineTable_spec nf k1 k2 nf1 nf2 rows blank b2 c2 hr hk1 hk2 rest1 rest2
+
+/-- non-vacuity: two boxes; columns 1, 0 of the first input and column 0 of the second -/
+example :
+    CellHRewrite.combine 3 [1, 0] [0] [0, 640]
+      "1\n1\n2\n0\n(2 0\n((0,0,0) (3,3,3) (0,0,0))\n((4,0,0) (7,3,3) (0,0,0))\n)\n2\nFabOnDisk: Cell_D_00000 0\nFabOnDisk: Cell_D_00000 1100\n\n2,2\n1.0,2.0,\n4.0,5.0,\n\n2,2\n7.0,8.0,\n1e1,1e2,\n".toUTF8.toList
+      "1\n1\n1\n0\n(2 0\n((0,0,0) (3,3,3) (0,0,0))\n((4,0,0) (7,3,3) (0,0,0))\n)\n2\nFabOnDisk: Cell_D_00001 0\nFabOnDisk: Cell_D_00000 0\n\n2,1\n-3.0,\n-6.0,\n\n2,1\n-9.0,\n-1e3,\n".toUTF8.toList =
+    some "1\n1\n3\n0\n(2 0\n((0,0,0) (3,3,3) (0,0,0))\n((4,0,0) (7,3,3) (0,0,0))\n)\n2\nFabOnDisk: Cell_D_00000 0\nFabOnDisk: Cell_D_00000 640\n\n2,3\n2.0,1.0,-3.0,\n5.0,4.0,-6.0,\n\n2,3\n8.0,7.0,-9.0,\n1e2,1e1,-1e3,\n".toUTF8.toList := by
+  decide +kernel
 
 end C06
